@@ -49,6 +49,27 @@ def rlOnePairs (runs : List (Nat × Nat)) : List (Nat × Nat) :=
   let ps := runs.flatMap fun r => (List.range r.2).map (· + r.1)
   ps.zipIdx.map fun p => (p.2, p.1)
 
+/-- the (rank, position) pair of the set bit of rank `r` in a run list (closed form per run: no expansion of runs) -/
+def rlOneAt (runs : List (Nat × Nat)) (r : Nat) : Option (Nat × Nat) :=
+  let rec go : List (Nat × Nat) → Nat → Option (Nat × Nat)
+    | [], _ => none
+    | (a, l) :: rest, skipped => if r < skipped + l then some (r, a + (r - skipped)) else go rest (skipped + l)
+  go runs 0
+
+/-- reference run of a FORWARD-only exact-size iterator over `total` items given by index (`itemAt i` for `i < total`),
+starting at item `k`: calls `n`, `N<j>`, `l` — independent of the size of the universe -/
+def fwdRefRun (itemAt : Nat → Option (Nat × Nat)) (total k : Nat) (calls : List String) : String :=
+  let (out, _) := calls.foldl (fun (acc : List String × Nat) c =>
+      let (o, cur) := acc
+      let j := num (c.drop 1).toString
+      let item := fun (i : Nat) => match itemAt i with | some p => s!"s{p.1},{p.2}" | none => "?"
+      match c.front with
+      | 'n' => if cur ≥ total then (o ++ ["-"], total) else (o ++ [item cur], cur + 1)
+      | 'N' => if cur + j ≥ total then (o ++ ["-"], total) else (o ++ [item (cur + j)], cur + j + 1)
+      | 'l' => (o ++ [s!"l{total - min cur total}"], cur)
+      | _ => (o ++ ["?"], cur)) ([], min k total)
+  " ".intercalate out
+
 def twoNats (s : String) : Nat × Nat :=
   match s.splitOn "," with
   | [a, b] => (num a, num b)
@@ -233,7 +254,8 @@ where
           zs.zipIdx.map fun p => (p.2, p.1)
         let one := fun (it0 : Outcome RLOneIter) (k : Nat) (r : String) =>
           res (iterRun rItemPair (RLOneIter.nextQ m v) none (RLOneIter.remaining v) it0 calls)
-            (if small then some (dequeRun pairStr ((rlOnePairs runs).drop k) calls) else none) r
+            (if small then some (dequeRun pairStr ((rlOnePairs runs).drop k) calls)
+             else some (fwdRefRun (rlOneAt runs) ones k calls)) r
         let zero := fun (it0 : Outcome RLZeroIter) (k : Nat) (r : String) =>
           res (iterRun rItemPair (RLZeroIter.nextQ m v) none (RLZeroIter.remaining v) it0 calls)
             (if small then some (dequeRun pairStr ((zeroRef ()).drop k) calls) else none) r
